@@ -18,6 +18,7 @@ RULE = ('Generated: genomes of 1..6 contigs (0..600 nt; ACGT, IUPAC codes, N run
         'gzip content without .gz name), file extensions, header text. Oracle: calc_file_signature is identical for both files '
         '(metamorphic), equals the sorted union of the per-contig calc_signature results, and equals the definitional R-KMER signature '
         'of the contig list (never of the concatenation). Non-trivial: non-empty signature and >= 2 contigs; distinct by case hash.')
+RULE += ' Further: differently spelled k-mer specifications; (rare) a chromosome-sized contig (1.6 M nucleotides) with prefix occurrences at block seams as plain, reverse-complemented and lower-case gzip file.'
 ASSUMPTIONS = ['FASTA files are ASCII text with one header line per record; blank lines and lone CR line endings are not generated '
                '(not named by the property)']
 DEADLINE_S = {'quick': 240, 'thorough': 2400}
